@@ -140,6 +140,8 @@ type Case struct {
 	SetMeta string    `json:"setmeta,omitempty"` // Inject=set, fault kinds that store a value: "" the Set* call names the same source as the configuration | other: another source | none: no MetaData
 	Outer   bool      `json:"outer,omitempty"`   // Move != "": the configuration merged into was loaded from another source
 	Reloc   *Reloc    `json:"reloc,omitempty"`   // the loaded section around the fault is moved (Child/captured + SetChild/Merge) before the fault is read (reloc_test.go)
+	Spell   []int     `json:"spell,omitempty"`   // how the generic data the configuration is normalised from is spelled: decisions nested / dotted keys / mixed, consumed in a fixed traversal order (empty: nested; hist_test.go)
+	Hist    *Hist     `json:"hist,omitempty"`    // edits of the lists the faulted setting lies in, made before the fault is read (hist_test.go)
 }
 
 const (
@@ -162,6 +164,15 @@ func setsValue(kind string) bool { return storesValue(kind) || kind == kStructVa
 
 type feat struct {
 	list, mapk, ptr, inline, dotted, emptyTag, cat bool
+	lists                                         []listPos // the lists the place is an element of (or lies below), outermost first
+}
+
+// listPos is one list on the way to a fault site: path[k] is the index of the
+// element the site is (or lies in).
+type listPos struct {
+	k     int  // position of the index segment in the site's path
+	n     int  // number of elements the list has in the value
+	array bool // fixed-size array (its length must not change)
 }
 
 type site struct {
@@ -218,6 +229,7 @@ func collect(td *gen.TD, tv *gen.TV, path []string, fd *gen.FD, direct, tagOK bo
 	case td.Kind == "slice", td.Kind == "array":
 		*out = append(*out, site{path: path, node: td.Kind, td: td, tv: tv, fd: fd, direct: direct, tagOK: tagOK, ft: ft})
 		ft.list = true
+		ft.lists = append(append([]listPos{}, ft.lists...), listPos{k: len(path), n: len(tv.Elems), array: td.Kind == "array"})
 		for i, e := range tv.Elems {
 			collect(td.Elem, e, appendPath(path, strconv.Itoa(i)), nil, false, false, ft, out)
 		}
@@ -580,17 +592,34 @@ func genCase(t *rapid.T) Case {
 	c.V = gen.GenTV(t, cfg, c.T, false)
 	// the shared generator draws mostly flat types: put the struct below a
 	// named field, list, map, pointer, array or inline field of a new root
-	if w := rapid.IntRange(0, 9).Draw(t, "nest"); w >= 4 {
+	// (a third of the cases is meant to get a history of list edits: most of them get a list around the struct)
+	wantHist := rapid.IntRange(0, 2).Draw(t, "wanthist") == 0
+	w := rapid.IntRange(0, 9).Draw(t, "nest")
+	if wantHist && rapid.IntRange(0, 3).Draw(t, "histnest") > 0 {
+		w = 5
+	}
+	if w >= 4 {
 		inner, innerV := c.T, c.V
 		more := func() *gen.TV { return gen.GenTV(t, cfg, inner, true) }
 		f := gen.FD{Name: "W", Tag: "w", T: inner}
 		fv := innerV
 		switch w {
 		case 5:
+			// a list of 1-4 objects (the drawn value at any position), in 1 of 4 cases a list of such lists
 			f.T = &gen.TD{Kind: "slice", Elem: inner}
 			fv = &gen.TV{Elems: []*gen.TV{innerV}}
 			if rapid.Bool().Draw(t, "two") {
 				fv.Elems = append(fv.Elems, more())
+			}
+			for n := rapid.IntRange(0, 2).Draw(t, "before"); n > 0; n-- {
+				fv.Elems = append([]*gen.TV{more()}, fv.Elems...)
+			}
+			if rapid.IntRange(0, 3).Draw(t, "lol") == 0 {
+				f.T = &gen.TD{Kind: "slice", Elem: f.T}
+				fv = &gen.TV{Elems: []*gen.TV{fv}}
+				if rapid.Bool().Draw(t, "lolbefore") {
+					fv.Elems = append([]*gen.TV{{Elems: []*gen.TV{more()}}}, fv.Elems...)
+				}
 			}
 		case 6:
 			f.T = &gen.TD{Kind: "map", Elem: inner}
@@ -669,6 +698,19 @@ func genCase(t *rapid.T) Case {
 	if len(deep) > 0 && rapid.IntRange(0, 3).Draw(t, "deep") > 0 {
 		cands = deep
 	}
+	// histories edit the lists the faulted setting lies in: in a third of the cases prefer places below a list
+	wantHist = wantHist && c.Kind != kRef
+	if wantHist {
+		var inList []int
+		for _, i := range cands {
+			if len(editableLists(&sites[i])) > 0 {
+				inList = append(inList, i)
+			}
+		}
+		if len(inList) > 0 {
+			cands = inList
+		}
+	}
 	s := &sites[rapid.SampledFrom(cands).Draw(t, "site")]
 	c.Path = s.path
 	base := s.td.Base()
@@ -722,8 +764,17 @@ func genCase(t *rapid.T) Case {
 	// relocation histories: the loaded section around the fault is moved before the fault is read. A section
 	// whose settings refer to other settings can not be moved to another configuration without changing
 	// what they mean: literal faults only.
-	if c.Deliver == nil && c.Kind != kRef && rapid.IntRange(0, 9).Draw(t, "reloc") < 4 {
+	// histories: the lists the faulted setting lies in are edited before the fault is read (literal faults only:
+	// references name settings by their position)
+	if c.Deliver == nil && wantHist {
+		c.Hist = genHist(t, &c, s)
+	}
+	if c.Hist == nil && c.Deliver == nil && c.Kind != kRef && rapid.IntRange(0, 9).Draw(t, "reloc") < 4 {
 		c.Reloc = genReloc(t, &c)
+	}
+	// spelling of the generic data the configuration is normalised from
+	if rapid.IntRange(0, 9).Draw(t, "spelled") < 4 {
+		c.Spell = genSpell(t)
 	}
 	return c
 }
@@ -972,7 +1023,7 @@ func buildCfg(c *Case, s *site, fault bool, art *artifacts) (*ucfg.Config, []str
 	if err != nil {
 		return nil, nil, fmt.Errorf("NewFrom(value): %v", err)
 	}
-	if c.Inject == "data" {
+	if c.Inject == "data" || len(c.Spell) > 0 {
 		data, err := uc.Dump(cfg, opts...)
 		if err != nil {
 			return nil, nil, fmt.Errorf("dump: %v", err)
@@ -980,6 +1031,7 @@ func buildCfg(c *Case, s *site, fault bool, art *artifacts) (*ucfg.Config, []str
 		if data == nil {
 			data = map[string]interface{}{}
 		}
+		fault := fault && c.Inject == "data" // a spelled configuration gets its fault through Set* later
 		nopts := opts
 		if fault {
 			if c.Kind == kRef && c.Ref != nil {
@@ -1006,6 +1058,7 @@ func buildCfg(c *Case, s *site, fault bool, art *artifacts) (*ucfg.Config, []str
 		if (fault && c.Kind == kRef) || c.Deliver != nil {
 			nopts = append(append([]ucfg.Option{}, opts...), ucfg.VarExp)
 		}
+		data, art.spell = respell(data, c.Spell)
 		if cfg, err = ucfg.NewFrom(data, nopts...); err != nil {
 			return nil, nil, fmt.Errorf("NewFrom(data): %v", err)
 		}
@@ -1099,6 +1152,14 @@ func buildCfg(c *Case, s *site, fault bool, art *artifacts) (*ucfg.Config, []str
 			return nil, nil, err
 		}
 	}
+	if c.Hist != nil && c.Hist.Outer {
+		// the element before the moved configuration is removed through the outer configuration: the handle
+		// that is read is element 0 of the outer list now
+		if ok, err := cfg.Remove("pre", 0, opts...); err != nil || !ok {
+			return nil, nil, fmt.Errorf("history: Remove(\"pre\", 0) of the outer configuration = %v, %v", ok, err)
+		}
+		prefix = []string{"pre", "0"}
+	}
 	return ch, prefix, nil
 }
 
@@ -1149,9 +1210,16 @@ func checkTyped(err error) (ucfg.Error, error) {
 // checkNamed verifies that err is a typed error whose message ends in
 // accessing|in field '<path>'<tail> for one of the acceptable namings.
 func checkNamed(err error, alts []expect) error {
+	_, nerr := matchNamed(err, alts)
+	return nerr
+}
+
+// matchNamed is checkNamed that also returns the naming that was found
+// (<path>'<tail>).
+func matchNamed(err error, alts []expect) (string, error) {
 	ue, terr := checkTyped(err)
 	if terr != nil {
-		return terr
+		return "", terr
 	}
 	msg := ue.Error()
 	if i := strings.Index(msg, "\nTrace:"); i >= 0 {
@@ -1162,9 +1230,9 @@ func checkNamed(err error, alts []expect) error {
 			for _, tail := range a.tails {
 				if strings.HasSuffix(msg, intro+a.path+"'"+tail) {
 					if p := ue.Path(); p != "" && p != a.path {
-						return fmt.Errorf("Path() of the error is %q, the fault is at %q: %q", p, a.path, msg)
+						return "", fmt.Errorf("Path() of the error is %q, the fault is at %q: %q", p, a.path, msg)
 					}
-					return nil
+					return a.path + "'" + tail, nil
 				}
 			}
 		}
@@ -1173,13 +1241,13 @@ func checkNamed(err error, alts []expect) error {
 	// explain: right path with the wrong ending, or another path
 	for _, intro := range []string{" accessing '", " in field '"} {
 		if i := strings.LastIndex(msg, intro+want.path+"'"); i >= 0 {
-			return fmt.Errorf("the message names '%s' but ends in %q, want %q: %q", want.path, msg[i+len(intro)+len(want.path)+1:], want.tails, msg)
+			return "", fmt.Errorf("the message names '%s' but ends in %q, want %q: %q", want.path, msg[i+len(intro)+len(want.path)+1:], want.tails, msg)
 		}
 	}
 	if m := namedRe.FindStringSubmatch(msg); m != nil {
-		return fmt.Errorf("the message names '%s', the fault is at '%s': %q", m[1], want.path, msg)
+		return "", fmt.Errorf("the message names '%s', the fault is at '%s': %q", m[1], want.path, msg)
 	}
-	return fmt.Errorf("the message names no setting (want '%s'): %q", want.path, msg)
+	return "", fmt.Errorf("the message names no setting (want '%s'): %q", want.path, msg)
 }
 
 // checkError verifies that err is a typed error naming path (and source).
@@ -1301,6 +1369,18 @@ func runCase(c Case, r *runlog.R) error {
 		return false
 	}
 	base, _, bart, err := build(&c, s, false)
+	var validData interface{}
+	if err == nil && c.Hist != nil && len(c.Hist.Edits) > 0 {
+		// the same history applied to the valid configuration
+		if validData, err = dumpValid(base); err == nil {
+			if perr := uc.Safe("history", func() error { _, err = applyHist(&c, s, base, validData, map[string]bool{}); return nil }); perr != nil {
+				return perr
+			}
+			if _, ok := err.(errDiscard); err != nil && !ok {
+				return fmt.Errorf("on the valid configuration: %v", err)
+			}
+		}
+	}
 	if err == nil {
 		var bopts []ucfg.Option
 		if bopts, err = readOpts(bart, c.NoRes); err == nil {
@@ -1335,7 +1415,23 @@ func runCase(c Case, r *runlog.R) error {
 		return err
 	}
 
-	want := strings.Join(append(append([]string{}, prefix...), c.Path...), ".")
+	// the lists the faulted setting lies in are edited before the fault is read: rel is where the setting is now
+	// (relative to the configuration that is read)
+	histClasses := map[string]bool{}
+	rel := relPath(&c)
+	if c.Hist != nil {
+		var herr error
+		if perr := uc.Safe("history", func() error { rel, herr = applyHist(&c, s, cfg, validData, histClasses); return nil }); perr != nil {
+			return perr
+		}
+		if herr != nil {
+			if discard(herr) {
+				return nil
+			}
+			return herr
+		}
+	}
+	want := strings.Join(append(append([]string{}, prefix...), rel[len(rel)-len(c.Path):]...), ".")
 	// The source is demanded for a setting that was loaded with metadata. A
 	// setting that is missing was not loaded from anywhere, and the elements
 	// of a collection parsed from delivered text were not loaded either (the
@@ -1392,8 +1488,14 @@ func runCase(c Case, r *runlog.R) error {
 			ref = fmt.Sprintf(" ref=%s splice=%v", c.Ref.Shape, c.Ref.Splice)
 		}
 		reloc := ""
+		if c.Hist != nil {
+			reloc = fmt.Sprintf(" history: %+v (loaded at '%s')", *c.Hist, strings.Join(append(append([]string{}, staticPrefix(c.Move)...), c.Path...), "."))
+		}
+		if len(c.Spell) > 0 {
+			reloc += fmt.Sprintf(" spelling: %v", c.Spell)
+		}
 		if rl := c.Reloc; rl != nil {
-			reloc = fmt.Sprintf(" relocation: section %d level(s) above the fault, obtained via %q, how=%s where=%q second configuration from %q, attached elsewhere first=%v, list element by idx=%v", rl.Up, rl.Via, rl.How, rl.Where, rl.Target, rl.Pre, rl.Idx)
+			reloc += fmt.Sprintf(" relocation: section %d level(s) above the fault, obtained via %q, how=%s where=%q second configuration from %q, attached elsewhere first=%v, list element by idx=%v", rl.Up, rl.Via, rl.How, rl.Where, rl.Target, rl.Pre, rl.Idx)
 		}
 		return fmt.Sprintf("fault %s at '%s' (inject=%s move=%s wrap=%v after=%v meta=%q payload=%v tag=%q delivery=%s%s nores=%v setmeta=%q outer=%v)%s", c.Kind, want, c.Inject, c.Move, c.Wrap, c.After, c.Meta, show(c.Payload), c.Tag, d, ref, c.NoRes, c.SetMeta, c.Outer, reloc)
 	}
@@ -1418,6 +1520,7 @@ func runCase(c Case, r *runlog.R) error {
 
 	typ := targetType(td, c.Wrap && c.Move == "key")
 	var uerr error
+	var named string
 	for i := len(readers) - 1; i >= 0; i-- {
 		through := ""
 		if i > 0 {
@@ -1431,17 +1534,59 @@ func runCase(c Case, r *runlog.R) error {
 		if strings.Contains(uerr.Error(), "panicked") && !isTyped(uerr) {
 			return uerr
 		}
-		if err := checkNamed(uerr, alts); err != nil {
+		if named, err = matchNamed(uerr, alts); err != nil {
 			return fmt.Errorf("Unpack%s: %v\n %s\n type %v", through, err, describe(), typ)
 		}
 	}
 
+	// the spelling of the input does not matter: the nested spelling of the same case names the same setting and
+	// the same source
+	if len(c.Spell) > 0 && c.Reloc == nil {
+		c2 := c
+		c2.Spell = nil
+		var tcfg *ucfg.Config
+		var tart *artifacts
+		var terr error
+		perr := uc.Safe("the nested spelling of the case", func() error {
+			if tcfg, _, tart, terr = build(&c2, s, true); terr != nil {
+				return nil
+			}
+			if c2.Hist != nil {
+				_, terr = applyHist(&c2, s, tcfg, validData, map[string]bool{})
+			}
+			return nil
+		})
+		if perr != nil {
+			return perr
+		}
+		if terr != nil {
+			if discard(terr) {
+				return nil
+			}
+			return fmt.Errorf("building the nested spelling of the case failed: %v\n %s", terr, describe())
+		}
+		topts, err := readOpts(tart, c.NoRes)
+		if err != nil {
+			return err
+		}
+		out := reflect.New(typ)
+		nerr := uc.Safe("Unpack", func() error { return tcfg.Unpack(out.Interface(), topts...) })
+		if nerr == nil {
+			return fmt.Errorf("fault not reported for the nested spelling: Unpack returned nil\n %s\n type %v", describe(), typ)
+		}
+		nested, err := matchNamed(nerr, alts)
+		if err != nil {
+			return fmt.Errorf("Unpack of the nested spelling: %v\n %s\n type %v", err, describe(), typ)
+		}
+		if nested != named {
+			return fmt.Errorf("the naming of the fault depends on the spelling of the input: nested objects and lists give '%s, spelled with dotted keys '%s\n spelled: %q\n nested:  %q\n %s\n type %v", nested, named, uerr.Error(), nerr.Error(), describe(), typ)
+		}
+		r.Class("spelling: naming compared with the nested spelling of the same case")
+	}
+
 	// the same fault read through the typed getter of the setting's kind
 	if op := getterOp(s, c.Kind); c.Getter && op != "" {
-		segs := c.Path
-		if c.Wrap && c.Move == "key" {
-			segs = append(append([]string{}, prefix...), c.Path...) // build returned the outer configuration
-		}
+		segs := rel // relative to the configuration build returned (the outer one if it is unpacked through a wrapping struct)
 		idx := -1
 		if n, err := strconv.Atoi(segs[len(segs)-1]); c.GIdx && err == nil && n >= 0 && len(segs) > 1 && s.ft.list {
 			segs, idx = segs[:len(segs)-1], n // an element of a list: (name of the list, idx)
@@ -1463,7 +1608,7 @@ func runCase(c Case, r *runlog.R) error {
 	}
 
 	moved := c.Move != ""
-	r.NonTrivialIf(len(c.Path) >= 2 || s.ft.list || s.ft.mapk || s.ft.ptr || s.ft.inline || moved || c.Deliver != nil || c.Reloc != nil)
+	r.NonTrivialIf(len(c.Path) >= 2 || s.ft.list || s.ft.mapk || s.ft.ptr || s.ft.inline || moved || c.Deliver != nil || c.Reloc != nil || c.Hist != nil)
 	r.Class("kind=" + c.Kind)
 	r.Class("node=" + s.node)
 	r.Class("inject=" + c.Inject)
@@ -1538,6 +1683,25 @@ func runCase(c Case, r *runlog.R) error {
 		r.ClassIf(collectionFault(c.Kind), "relocation with a collection-level fault")
 	}
 	r.ClassIf(collectionFault(c.Kind), "collection-level fault")
+	if c.Hist != nil {
+		r.Class("history")
+		for k := range histClasses {
+			r.Class(k)
+		}
+		r.ClassIf(c.Hist.Outer, "history: the element before the moved configuration is removed from the outer list")
+		r.ClassIf(collectionFault(c.Kind), "history with a collection-level fault")
+	}
+	if sp := art.spell; sp != nil && len(c.Spell) > 0 {
+		r.Class("spelling: data re-spelled")
+		r.ClassIf(sp.dotted > 0, "spelling: dotted keys")
+		r.ClassIf(sp.implied > 0, "spelling: objects/lists implied by dotted keys only")
+		r.ClassIf(sp.listNodes > 0, "spelling: list elements written by numeric segments")
+		r.ClassIf(sp.piecewise > 0, "spelling: a container defined piecewise (nested and dotted mixed)")
+		r.ClassIf(sp.dotted > 0 && collectionFault(c.Kind), "spelling: dotted keys with a collection-level fault")
+		r.ClassIf(sp.dotted > 0 && collectionFault(c.Kind) && c.Meta != "", "spelling: dotted keys with a collection-level fault, with metadata")
+		r.ClassIf(sp.dotted > 0 && c.Inject == "set", "spelling: dotted keys, then the fault through Set*/Remove")
+		r.ClassIf(sp.dotted > 0 && c.Hist != nil, "spelling: dotted keys, then a history")
+	}
 	if c.Inject == "set" && storesValue(c.Kind) && c.SetMeta != "" {
 		r.Class("value stored by Set* with source: " + c.SetMeta)
 	}
